@@ -316,7 +316,7 @@ DecidedThemselves(x) == \A n \in Range(x.live) :
    \A h \in (run.params.h0 + 1)..x.target : \E k \in 1..Len(acc[n]) : acc[n][k].h = h
 
 \* C09 Recovery liveness (driver "faults": silent validators, healed partitions, restarts; bounded wait)
-FaultRun == run.driver = "faults"
+FaultRun == run.driver = "faults" \/ (run.driver = "script" /\ "c09" \in DOMAIN run.params)
 SilentViewBound(e, j) == (FaultRun /\ run.params.kind \in {"silent", "watch"}) => e.cb[j].at.v <= run.params.nsilent
 
 \* C16 Dynamic block time
